@@ -24,5 +24,5 @@ GenNext ==
 GenSpec == GenInit /\ [][GenNext]_<<vars, stim>>
 
 EmitScript == (TLCGet("level") = EmitAt) =>
-    PrintT(<<"SCRIPT", ToJson([cfg |-> [max_conn |-> MaxConn, out_batch |-> OutBatch], steps |-> stim])>>)
+    PrintT(<<"SCRIPT", ToJson([cfg |-> [max_conn |-> MaxConn, out_batch |-> OutBatch, strategy |-> Strategy], steps |-> stim])>>)
 =============================================================================
